@@ -1,9 +1,10 @@
 from pyvc.tasks_engine import TasksEngine
 ID = "C01"
 LEVEL = "other"
-CONTRACT_MODULES = ["contracts.sorting", "contracts.refcount", "contracts.tasks", "contracts.tasks_proto"]
+CONTRACT_MODULES = ["contracts.sorting", "contracts.refcount", "contracts.tasks", "contracts.tasks_proto", "contracts.tasks_knob"]
 FUNCTIONS = ["_dfs", "toposort", "Manager.find_taskids", "Manager.find_tasks", "Manager.register", "Manager.unregister",
-             "Manager.run_tasks", "Manager.run_tasks@consistency", "Manager.set_value", "ExprTask.run", "ExprTask.__init__"]
+             "Manager.run_tasks", "Manager.run_tasks@consistency", "Manager.set_value", "ExprTask.run", "ExprTask.__init__",
+             "LinearKnob.run", "LinearKnob.__init__"]
 # functions of other properties' configurations that an assignment through a reference goes through: the in-place operators (C04) and the
 # dependency walkers (C05)
 BORROW = [('C04', ['MutableRef.__iadd__', 'MutableRef.__isub__', 'MutableRef.__imul__', 'MutableRef.__imatmul__', 'MutableRef.__itruediv__', 'MutableRef.__ifloordiv__', 'MutableRef.__imod__', 'MutableRef.__ipow__', 'MutableRef.__ilshift__', 'MutableRef.__irshift__', 'MutableRef.__iand__', 'MutableRef.__ior__', 'MutableRef.__ixor__', 'AttrRef._set_value', 'ItemRef._set_value']), ('C05', ['MutableRef._get_dependencies', 'Ref._get_dependencies', 'BinOpExpr._get_dependencies', 'UnaryOpExpr._get_dependencies', 'LiteralExpr._get_dependencies', 'BuiltinRef._get_dependencies', 'CallRef._get_dependencies'])]
@@ -22,17 +23,22 @@ ASSUMPTIONS = [
     "tree-shaped user data, no computed key aliasing a constant key, containers not mutated behind the manager's back (excluded by the statement)",
     "Acyc: in the declared ordering graph no task feeds itself and no edge closes a cycle -- violated by two expression-defined members of one "
     "nested container, one feeding the other: known finding K1 (the composition proof does not cover those managers; the run-time part does and reports K1)",
-    "the composition proof is stated for expression tasks; FunctionTask / LinearKnob actions are user code (deterministic, no call back into the manager)",
+    "the composition proof is stated for expression tasks; a FunctionTask's action is user code (deterministic, no call back into the manager); LinearKnob.run and "
+    "LinearKnob.__init__ are proved on their own (arithmetic on the values opaque: py_sub / py_add / py_mul, the last two commutative; as many weights as targets)",
     "the initial store of set_value affects only tasks in the schedule (start set = tasks depending on the location or an enclosing container: closure "
     "clause of find_tasks) -- argued, not mechanised",
 ]
 BOUNDED = ["the end-to-end clause 'after every assignment every location equals its definition' (incl. nested containers, in-place operators, "
            "function and linear-knob tasks) is checked at run time against an independent pull-model evaluator: all histories of length <=3 (quick) / 4 "
-           "over 24 operations, random histories to length 14, chains to 4000, all 13 in-place operators"]
+           "over 24 operations, the same over 13 operations around containers read as a whole, over 18 operations with linear knobs and function tasks "
+           "(rac/c01_tasks.py), random histories to length 14, chains to 6000, all 13 in-place operators"]
 EXPLANATION = ("proved: the ordering walk (iterative DFS, toposort, find_taskids/find_tasks), index maintenance (register/unregister), "
                "set_value (definition step, one store, runs == schedule), ExprTask.run (evaluate, one store) and the composition step: "
                "Manager.run_tasks on a schedule satisfying the find_tasks postcondition leaves EVERY registered expression task consistent "
-               "(target location == expression evaluated on the current data), given consistency outside the schedule, IdxWF, the frame axioms and Acyc")
+               "(target location == expression evaluated on the current data), given consistency outside the schedule, IdxWF, the frame axioms and Acyc; "
+               "LinearKnob: the constructor declares {source} as dependencies and every target together with every container holding one as targets "
+               "(union of locs; the closure whose absence was defect F28), run() stores value(target_i) + weight_i * (source - previous source) into "
+               "target_i for i = 0..n-1 in order, each read on the data left by the previous store, then remembers the source value, and stores nothing else")
 LEVEL_TEXT = ("Mixed: all functions of the update path and the composition step are discharged for all inputs (under the stated frame axioms and "
               "Acyc); the end-to-end consistency clause on real containers is a bounded run-time contract check. One known finding (K1).")
 LEVEL_NOTE = "Known finding K1 recorded in known_findings.json; statement exclusions taken as preconditions."
